@@ -1,5 +1,241 @@
 package main
 
+import (
+	"bufio"
+	"encoding/json"
+	"fmt"
+	"math/rand"
+	"os"
+	"sort"
+	"strings"
+
+	"github.com/evolbioinfo/gotree/tree"
+)
+
+// Direction A: every transition TLC generated from the TreeOps model is a self-contained case
+// {pre, op, args}. The same starting tree is built through the public API, the same call is made with
+// the same arguments, and what the real code did is recorded for validation by TraceEdit.tla.
+
+type mNode struct {
+	Id  int    `json:"id"`
+	Par int    `json:"par"`
+	Nm  string `json:"nm"`
+	Len int64  `json:"len"`
+	Sup int64  `json:"sup"`
+	Pv  int64  `json:"pv"`
+}
+
+type mTree struct {
+	Root  int     `json:"root"`
+	Nodes []mNode `json:"nodes"`
+}
+
+type mCase struct {
+	Pre   mTree                  `json:"pre"`
+	Op    string                 `json:"op"`
+	Args  map[string]interface{} `json:"args"`
+	Depth int                    `json:"depth"`
+	K     *int                   `json:"k,omitempty"` // original case index (fixes the child-order rotation on replay)
+}
+
+// buildModelTree constructs the real tree of a model tree; children in increasing id order,
+// optionally rotated (rot) so that several child orders of the same abstract tree are exercised.
+func buildModelTree(mt *mTree, rot int) (*tree.Tree, map[int]*tree.Node, error) {
+	kids := map[int][]int{}
+	byId := map[int]*mNode{}
+	for i := range mt.Nodes {
+		n := &mt.Nodes[i]
+		byId[n.Id] = n
+		if n.Id != mt.Root {
+			kids[n.Par] = append(kids[n.Par], n.Id)
+		}
+	}
+	for k := range kids {
+		sort.Ints(kids[k])
+		if rot > 0 && len(kids[k]) > 1 {
+			r := rot % len(kids[k])
+			kids[k] = append(kids[k][r:], kids[k][:r]...)
+		}
+	}
+	t := tree.NewTree()
+	ptr := map[int]*tree.Node{}
+	var rec func(id int, parent *tree.Node)
+	rec = func(id int, parent *tree.Node) {
+		mn := byId[id]
+		n := t.NewNode()
+		n.SetName(mn.Nm)
+		ptr[id] = n
+		if parent != nil {
+			e := t.ConnectNodes(parent, n)
+			if mn.Len != NILU {
+				e.SetLength(fromUnits(mn.Len))
+			}
+			if mn.Sup != NILU {
+				e.SetSupport(fromUnits(mn.Sup))
+			}
+			if mn.Pv != NILU {
+				e.SetPValue(fromUnits(mn.Pv))
+			}
+		}
+		for _, c := range kids[id] {
+			rec(c, n)
+		}
+	}
+	rec(mt.Root, nil)
+	t.SetRoot(ptr[mt.Root])
+	if err := t.ReinitIndexes(); err != nil {
+		return nil, nil, err
+	}
+	return t, ptr, nil
+}
+
+func argStrs(a interface{}) []string {
+	out := []string{}
+	if l, ok := a.([]interface{}); ok {
+		for _, x := range l {
+			out = append(out, fmt.Sprint(x))
+		}
+	}
+	return out
+}
+
+func argInt(a interface{}) int64 {
+	switch v := a.(type) {
+	case float64:
+		return int64(v)
+	case int:
+		return int64(v)
+	}
+	return 0
+}
+
+func argBool(a interface{}) bool {
+	b, _ := a.(bool)
+	return b
+}
+
+// applyExplicit performs one public call with the given arguments (as emitted by the model).
+func applyExplicit(h *hist, c *mCase, ptr map[int]*tree.Node) *Event {
+	a := c.Args
+	switch c.Op {
+	case "Reroot":
+		n := ptr[int(argInt(a["node"]))]
+		ev := &Event{Op: "Reroot", Args: map[string]interface{}{"node": h.p.nodeId[n]}}
+		guard(ev, func() error { return h.t.Reroot(n) })
+		return h.finish(ev)
+	case "RerootFirst":
+		return opRerootFirst(h)
+	case "UnRoot":
+		return opUnRoot(h)
+	case "RerootMidPoint":
+		ev := &Event{Op: "RerootMidPoint"}
+		guard(ev, func() error { return h.t.RerootMidPoint() })
+		return h.finish(ev)
+	case "RerootOutGroup":
+		names := argStrs(a["names"])
+		strict, remove := argBool(a["strict"]), argBool(a["remove"])
+		ev := &Event{Op: "RerootOutGroup", Args: map[string]interface{}{"names": names, "strict": strict, "remove": remove}}
+		guard(ev, func() error { return h.t.RerootOutGroup(remove, strict, names...) })
+		return h.finish(ev)
+	case "RemoveTips":
+		names := argStrs(a["names"])
+		revert := argBool(a["revert"])
+		all := h.p.tipNames()
+		ev := &Event{Op: "RemoveTips", Args: map[string]interface{}{"names": names, "revert": revert}}
+		guard(ev, func() error { return h.t.RemoveTips(revert, names...) })
+		ev = h.finish(ev)
+		h.lookups(ev, append(all, "zz"))
+		return ev
+	case "CollapseShortBranches":
+		thr, rr, rt := argInt(a["thr"]), argBool(a["root"]), argBool(a["tips"])
+		ev := &Event{Op: c.Op, Args: map[string]interface{}{"thr": thr, "root": rr, "tips": rt}}
+		guard(ev, func() error { h.t.CollapseShortBranches(fromUnits(thr), rr, rt); return nil })
+		return h.finish(ev)
+	case "CollapseLowSupport":
+		thr, rr := argInt(a["thr"]), argBool(a["root"])
+		ev := &Event{Op: c.Op, Args: map[string]interface{}{"thr": thr, "root": rr}}
+		guard(ev, func() error { h.t.CollapseLowSupport(fromUnits(thr), rr); return nil })
+		return h.finish(ev)
+	case "CollapseTopoDepth":
+		lo, hi, rr, rt := int(argInt(a["min"])), int(argInt(a["max"])), argBool(a["root"]), argBool(a["tips"])
+		ev := &Event{Op: c.Op, Args: map[string]interface{}{"min": lo, "max": hi, "root": rr, "tips": rt}}
+		guard(ev, func() error { return h.t.CollapseTopoDepth(lo, hi, rr, rt) })
+		return h.finish(ev)
+	case "Resolve":
+		return opResolve(h)
+	case "RemoveSingleNodes":
+		return opRemoveSingle(h)
+	case "RotateInternalNodes":
+		return opRotate(h)
+	case "SortNeighborsByTips":
+		return opSort(h)
+	case "InsertIdenticalTips":
+		groups := [][]string{}
+		if l, ok := a["groups"].([]interface{}); ok {
+			for _, g := range l {
+				groups = append(groups, argStrs(g))
+			}
+		}
+		ev := &Event{Op: c.Op, Args: map[string]interface{}{"groups": groups}}
+		guard(ev, func() error { return h.t.InsertIdenticalTips(groups) })
+		return h.finish(ev)
+	}
+	return nil
+}
+
 func replayEditCases(cases, out, prop string, shard, nshards int) (int, map[string]int) {
-	return 0, map[string]int{}
+	f, err := os.Open(cases)
+	if err != nil {
+		fatal("%v", err)
+	}
+	defer f.Close()
+	tw, err := newTraceWriter(out)
+	if err != nil {
+		fatal("%v", err)
+	}
+	defer tw.close()
+	ops := map[string]int{}
+	opt := ProjOpt{}
+	switch prop {
+	case "C03":
+		opt = ProjOpt{Enum: true, Text: true}
+	case "C04":
+		opt = ProjOpt{Idx: true}
+	}
+	sc := bufio.NewScanner(f)
+	sc.Buffer(make([]byte, 1<<20), 1<<26)
+	k := -1
+	for sc.Scan() {
+		line := strings.TrimSpace(sc.Text())
+		if line == "" {
+			continue
+		}
+		k++
+		if k%nshards != shard {
+			continue
+		}
+		var c mCase
+		if err := json.Unmarshal([]byte(line), &c); err != nil {
+			fatal("bad case line %d: %v", k, err)
+		}
+		if c.K != nil {
+			k = *c.K
+		}
+		rand.Seed(int64(k))
+		t, ptr, err := buildModelTree(&c.Pre, k%3)
+		if err != nil {
+			fatal("build case %d: %v", k, err)
+		}
+		h := &hist{r: rand.New(rand.NewSource(int64(k))), tw: tw, opt: opt, gp: defaultGen(), label: fmt.Sprintf("%s-case-%d", prop, k)}
+		h.t = t
+		h.proj()
+		tw.emit(&Event{Ev: "reset", Case: h.label, Op: "Init", Obj: "a", Ok: true, Post: h.p, Args: map[string]interface{}{"case": k}})
+		ev := applyExplicit(h, &c, ptr)
+		if ev == nil {
+			continue
+		}
+		tw.emit(ev)
+		ops[ev.Op]++
+	}
+	return tw.n, ops
 }
